@@ -9,8 +9,8 @@ open DymVerif
 
 /-- Newton contract, upper half, in exact (unfloored) terms: the tokens the code grants for a net
     spend cost at most that spend.  A hypothesis about the oracle `T`; monitored at run time. -/
-def NewtonUpper (I : Int → Int) (T : Int → Int → Option Int) : Prop :=
-  ∀ L sold net t, tokensForExactIn T L sold net = some t →
+def NewtonUpper (I : Int → Int) (T : Int → Int → Option Int) (L : Nat) : Prop :=
+  ∀ sold net t, tokensForExactIn T L sold net = some t →
     pow10 L * (I (sold + t) - I sold) ≤ decP * net
 
 /-- rational-free solvency: `10^L·(I sold − I 0) < 10^18·(balance + trades + 1)` -/
@@ -32,7 +32,8 @@ theorem cost_pos_bounds {I : Int → Int} {L : Nat} {x x1 : Int} (h : 0 < cost I
   exact ⟨this.2.1, this.2.2⟩
 
 theorem solv_step {I : Int → Int} {T : Int → Int → Option Int} {st : State} (op : Op)
-    (hs : Solv I st) (hN : isBes op = true → NewtonUpper I T) : Solv I (step I T st op).1 := by
+    (hs : Solv I st) (hN : isBes op = true → ∀ p, st.plan = some p → NewtonUpper I T p.L) :
+    Solv I (step I T st op).1 := by
   rcases step_cases I T st op with h | ⟨_, h⟩
   · rw [h]; exact hs
   · generalize (step I T st op).1 = st' at h
@@ -78,7 +79,7 @@ theorem solv_step {I : Int → Int} {T : Int → Int → Option Int} {st : State
     | bes a sp mt =>
       obtain ⟨p, net, fee, tokens, l1, ht, _, hf, htk, _, _, _, _, _, rfl⟩ := doBes_ok h
       obtain ⟨hp, hns, _⟩ := tradeable_ok ht
-      have hc := hN rfl p.L p.sold net tokens htk
+      have hc := hN rfl p hp p.sold net tokens htk
       have ih := hs1 p hp hns
       refine ⟨by simp, ?_⟩
       intro q hq _
@@ -143,7 +144,7 @@ def potential (I : Int → Int) (L : Nat) (st : State) (a : Nat) (sold : Int) : 
   decP * st.liq a + pow10 L * I sold
 
 theorem trade_potential {I : Int → Int} {T : Int → Int → Option Int} {st : State} {a : Nat} (op : Op)
-    (hop : isTradeBy a op = true) (hN : isBes op = true → NewtonUpper I T) {p : Plan} (hp : st.plan = some p) :
+    (hop : isTradeBy a op = true) {p : Plan} (hN : isBes op = true → NewtonUpper I T p.L) (hp : st.plan = some p) :
     (step I T st op).1 = st ∨
     ∃ p', (step I T st op).1.plan = some p' ∧ p'.L = p.L ∧
       potential I p.L (step I T st op).1 a p'.sold < potential I p.L st a p.sold := by
@@ -173,7 +174,7 @@ theorem trade_potential {I : Int → Int} {T : Int → Int → Option Int} {st :
       obtain ⟨hq, _, _⟩ := tradeable_ok ht
       rw [hp] at hq; cases hq
       obtain ⟨_, hfp, _, _⟩ := applyTakerFee_some hf
-      have hc := hN rfl p.L p.sold net tokens htk
+      have hc := hN rfl p.sold net tokens htk
       have hl1 := (chargeFee_self hl hfp).1
       refine ⟨_, rfl, rfl, ?_⟩
       simp only [upd, if_true]
@@ -205,7 +206,7 @@ theorem run_cons (I : Int → Int) (T : Int → Int → Option Int) (st : State)
 
 theorem run_potential {I : Int → Int} {T : Int → Int → Option Int} {a : Nat} (ops : List Op) :
     ∀ (st : State) (p : Plan), st.plan = some p →
-      (∀ o ∈ ops, isTradeBy a o = true) → (∀ o ∈ ops, isBes o = true → NewtonUpper I T) →
+      (∀ o ∈ ops, isTradeBy a o = true) → (∀ o ∈ ops, isBes o = true → NewtonUpper I T p.L) →
       run I T st ops = st ∨
       ∃ p', (run I T st ops).plan = some p' ∧ p'.L = p.L ∧
         potential I p.L (run I T st ops) a p'.sold < potential I p.L st a p.sold := by
@@ -217,10 +218,10 @@ theorem run_potential {I : Int → Int} {T : Int → Int → Option Int} {a : Na
     have ho := hops o (by simp)
     have hN' := hN o (by simp)
     have hops' : ∀ o' ∈ ops, isTradeBy a o' = true := fun o' h => hops o' (by simp [h])
-    have hNN : ∀ o' ∈ ops, isBes o' = true → NewtonUpper I T := fun o' h => hN o' (by simp [h])
+    have hNN : ∀ o' ∈ ops, isBes o' = true → NewtonUpper I T p.L := fun o' h => hN o' (by simp [h])
     rcases trade_potential (T := T) o ho hN' hp with h1 | ⟨p1, hp1, hL1, hlt1⟩
     · rw [h1]; exact ih st p hp hops' hNN
-    · rcases ih _ p1 hp1 hops' hNN with h2 | ⟨p2, hp2, hL2, hlt2⟩
+    · rcases ih _ p1 hp1 hops' (by rw [hL1]; exact hNN) with h2 | ⟨p2, hp2, hL2, hlt2⟩
       · rw [h2]; exact Or.inr ⟨p1, hp1, hL1, hlt1⟩
       · refine Or.inr ⟨p2, hp2, by rw [hL2, hL1], ?_⟩
         rw [hL1] at hlt2
